@@ -86,6 +86,7 @@ type worker struct {
 	stats    Stats
 	sigs     map[uint64]struct{}
 	keys     map[string]int
+	suspects int
 	seen     map[uint64]visit
 	deadline time.Time
 	lastFlush time.Time
@@ -230,17 +231,28 @@ func (w *worker) explore(item int, prefix []int) {
 		}
 		full := append([]int(nil), c.choices...)
 		var last Verdict
+		suspect := false
 		for r := 0; r < reps; r++ {
 			w.seen = map[uint64]visit{} // a replay must not be pruned
 			c2, v2 := w.runOnce(item, full, !v.OK)
 			w.stats.Replayed++
 			if c2.diverged != "" || !sameObservation(v, v2) || len(c2.choices) != len(full) {
+				if !v.OK && c2.diverged == "" {
+					// A violation that does not repeat when the execution is run again in
+					// this process: either the harness is nondeterministic, or the code
+					// under test carried state over from the first execution.  The
+					// parent decides by running this one execution first thing in fresh
+					// processes (see confirmSuspects).
+					w.suspect(item, full, v)
+					suspect = true
+					break
+				}
 				w.nondet(item, full, fmt.Sprintf("re-execution differs: first=%+v again=%+v diverged=%q", v, v2, c2.diverged))
 			}
 			last = v2
 		}
 		w.seen = c.seen
-		if !v.OK {
+		if !v.OK && !suspect {
 			w.violation(item, full, last)
 		}
 	}
@@ -288,6 +300,18 @@ func (w *worker) nondet(item int, choices []int, msg string) {
 	os.Exit(3)
 }
 
+// suspect records a violation that did not repeat on re-execution in this process.
+func (w *worker) suspect(item int, choices []int, v Verdict) {
+	if w.suspects >= 3 {
+		return
+	}
+	w.suspects++
+	w.enc.Encode(record{Type: "suspect", Violation: &Violation{
+		Family: w.fam.Name, Item: item, Choices: choices, Key: v.Key, Detail: v.Detail, Render: v.Render,
+	}})
+	w.out.Sync()
+}
+
 func (w *worker) violation(item int, choices []int, v Verdict) {
 	if w.keys[v.Key] >= maxPerKey {
 		w.keys[v.Key]++
@@ -303,6 +327,10 @@ func (w *worker) violation(item int, choices []int, v Verdict) {
 }
 
 // runWorker is the entry point of a worker process.
+// confirmChoices, when set (flag -confirm), makes the worker run that single
+// execution of item -onlyitem and nothing else.
+var confirmChoices []int
+
 func runWorker(fam *Family, shard, nshards, startPos, onlyItem int, seed int64, outPath, progressPath string, budget time.Duration) {
 	debug.SetMaxStack(256 << 20)
 	debug.SetGCPercent(200)
@@ -330,6 +358,19 @@ func runWorker(fam *Family, shard, nshards, startPos, onlyItem int, seed int64, 
 	start := time.Now()
 	if budget > 0 {
 		w.deadline = start.Add(budget)
+	}
+	if confirmChoices != nil {
+		// one execution, the first this process makes: no self-check, no exploration
+		w.setProgress(0, onlyItem)
+		w.seen = map[uint64]visit{}
+		_, v := w.runOnce(onlyItem, confirmChoices, true)
+		if !v.OK {
+			w.violation(onlyItem, confirmChoices, v)
+		}
+		w.flush(true)
+		w.enc.Encode(record{Type: "done"})
+		out.Close()
+		os.Exit(0)
 	}
 	var items []int
 	if onlyItem >= 0 {
